@@ -2,13 +2,14 @@
 """usage: mkprompt.py <PROP> <suffix> [focus-file ...]  - writes /tmp/seed-prompt-<PROP><suffix>.md for a
 seeded-change author working in /tmp/seed-<prop><suffix>. The prompt contains only the property text (statement,
 quantifier, anchor files); the optional focus files (taken from the property's own anchors) steer a second-round
-author to a different part of the anchored code than the first round touched."""
+author to a different part of the anchored code than the first round touched. A suffix that starts with
+`n` selects the template for BENIGN changes (property-preserving refactors: probes for false alarms)."""
 import json, sys
 prop, suffix, focus = sys.argv[1], sys.argv[2], sys.argv[3:]
 p = next(json.loads(l) for l in open('/verif/properties.jsonl') if json.loads(l)['id'] == prop)
 wt = f"/tmp/seed-{prop.lower()}{suffix}"
 files = focus + [f for f in p['anchors']['files'] if f not in focus]
-t = open('/verif/seeded/PROMPT_TEMPLATE.md').read()
+t = open('/verif/seeded/PROMPT_TEMPLATE_BENIGN.md' if suffix.startswith('n') else '/verif/seeded/PROMPT_TEMPLATE.md').read()
 t = (t.replace('{WT}', wt).replace('{ID}', prop).replace('{TITLE}', p['title']).replace('{STATEMENT}', p['statement'])
       .replace('{QUANT}', p['quantifier']['text']).replace('{FILES}', ', '.join(files if focus else files[:4])))
 if focus:
